@@ -232,6 +232,8 @@ REWRITES = {
     "format_val": (r"format!\(\"\{val\}\"\)", r"vdisp::display_string(&val)", "format!(\"{val}\") is the String holding Display of the value (the one-line JSON text; uninterpreted here)"),
     "selection_from_str_fn": (r"\bSelection::from_str\(", r"vsel::selection_from_str(", "Selection::from_str called from parse_selection is the stand-in selection_from_str: the same function with, in addition to the clause unit EXPR proves for the real body, the assumption that its answer is a function of the text"),
     "as_str_sel": (r"\bstr\.as_str\(\)", r"vsel::as_str_of(&str)", "String::as_str is the same text as a slice"),
+    "results_map_collect": (r"\bself\.results\.iter\(\)\.map\(", r"vmapc::vmap_ref(&self.results, ",
+        "`v.iter().map(f)` (followed by .collect()) on a Vec is the function vmap_ref(&v, f): f applied to a reference to every element in order, with the assumed std contract"),
     "pub_crate": (r"\bpub\(crate\)\s+", r"pub ", "visibility is irrelevant in a single file"),
     "deref_clone": (
         r"(\w+)\.deref\(\)\.clone\(\)", r"vrc::deref_clone(&\1)", "Rc<T>::deref().clone() clones the pointee"),
